@@ -15,14 +15,19 @@ def encMsg (m : C05.Msg) : String :=
 def encMsgs (ms : List C05.Msg) : String :=
   if ms.isEmpty then "-" else ";".intercalate (ms.map encMsg)
 
+/-- the bytes accepted by any socket between `old` and `w` -/
+def wireDelta (old w : World) : Bytes :=
+  if w.pastWires.length = old.pastWires.length then w.wire.drop old.wire.length
+  else (w.pastWires.drop old.pastWires.length).flatten.drop old.wire.length ++ w.wire
+
 /-- canonical dump of the observable state; `wire` and `fed` as deltas against `old` -/
 def dump (old w : World) : String :=
   "c" ++ b01 w.connected ++ " z" ++ b01 w.zombie ++ " x" ++ b01 w.removed ++ " k" ++ b01 w.sockClosed ++
-  " r" ++ b01 w.reconnectAt ++ " e" ++ toString w.eagains ++
+  " r" ++ b01 w.reconnectAt ++ " e" ++ toString w.eagains ++ " ep" ++ toString w.epoch ++
   " ob=" ++ encBytes w.outbuffer ++ " ib=" ++ encBytes w.inbuffer ++
-  " w=" ++ encBytes (w.wire.drop old.wire.length) ++
+  " w=" ++ encBytes (wireDelta old w) ++
   " q=" ++ toString w.queue.length ++
-  " f=" ++ encMsgs (w.fed.drop old.fed.length) ++
+  " f=" ++ encMsgs (w.allFed.drop old.allFed.length) ++
   (match w.crashed with | some e => " crash=" ++ e | none => "")
 
 def decSend (f : String) : Option SendRes :=
@@ -45,13 +50,14 @@ structure DState where
 def timeOkOf (s : DState) : Str → Bool :=
   fun v => match s.accept with | none => true | some l => l.contains v
 
-def envOf (s : DState) : Env := { timeOk := timeOkOf s, react := pingPong }
+def envOf (s : DState) : Env := { timeOk := timeOkOf s, react := pingPong, reconnects := errorReconnect }
 
 def decOp : List String → Option Op
   | ["q", s] => (dec s).map .queue
   | ["ss", r] => (decSend r).map .scriptSend
   | ["sr", r] => (decRecv r).map .scriptRecv
   | ["die"] => some .ircDie
+  | ["tick"] => some .tick
   | ["loop"] => some .loop
   | _ => none
 
